@@ -284,6 +284,7 @@ PLANS["C14"] = P(
     [{"driver": "threads", "scn": "MC_salt", "args": {"n": 3, "scale": 40, "configs": "16x60"}}, {"driver": "rich", "args": {"n": 300, "depth": 4, "only": "issue"}}],
     [{"driver": "threads", "scn": "MC_salt", "args": {"n": 8, "scale": 400, "configs": "1x3000,2x3000,4x3000,8x3000,12x2000,16x2000"}}, {"driver": "rich", "args": {"n": 5000, "depth": 6, "only": "issue"}}],
     required={"salts.unique": 4, "salts.bits": 3, "issue.salts": 200},
+    apalache="apalache_salt",
     nontrivial_event="Salts",
     rule="cases = runs of 1..16 threads, each thread re-using one issuer instance and issuing the same (even threads) or different (odd threads) claims under AllLevels with decoys, in whatever "
          "interleaving the scheduler produces; per run and over the union of all runs: all salts pairwise distinct, all decoy digests pairwise distinct, every salt base64url of >= 16 bytes, "
